@@ -208,6 +208,34 @@ func runControls(pr *Property, repo, verif string) ([]controlResult, []Obligatio
 	return results, obls
 }
 
+var (
+	baselineMu    sync.Mutex
+	baselineCache = map[string]map[string]bool{}
+	baselineErr   = map[string]error{}
+)
+
+func baselineFailures(repo, rule string) (map[string]bool, error) {
+	baselineMu.Lock()
+	defer baselineMu.Unlock()
+	if b, ok := baselineCache[rule]; ok {
+		return b, baselineErr[rule]
+	}
+	base, err := runSub(repo, []string{rule}, "")
+	out := map[string]bool{}
+	if err == nil && base.LoadError != "" {
+		err = fmt.Errorf("%s", base.LoadError)
+	}
+	if err == nil {
+		for _, o := range base.Obligations {
+			if o.Verdict == Fail || o.Verdict == Undecided {
+				out[o.Key] = true
+			}
+		}
+	}
+	baselineCache[rule], baselineErr[rule] = out, err
+	return out, err
+}
+
 func runControl(m Mutant, repo string) controlResult {
 	res := controlResult{Name: m.Name, Rule: m.Rule}
 	src, err := os.ReadFile(filepath.Join(repo, m.File))
@@ -224,18 +252,12 @@ func runControl(m Mutant, repo string) controlResult {
 		res.Detail = "anchor text not present exactly once in " + m.File + " (the code moved on)"
 		return res
 	}
-	// baseline failures of this rule on the unmodified tree
-	base, err := runSub(repo, []string{m.Rule}, "")
-	if err != nil || base.LoadError != "" {
+	// baseline failures of this rule on the unmodified tree (computed once per rule)
+	baseFail, err := baselineFailures(repo, m.Rule)
+	if err != nil {
 		res.Status = "did-not-fire"
-		res.Detail = fmt.Sprintf("baseline run failed: %v %s", err, base.LoadError)
+		res.Detail = fmt.Sprintf("baseline run failed: %v", err)
 		return res
-	}
-	baseFail := map[string]bool{}
-	for _, o := range base.Obligations {
-		if o.Verdict == Fail || o.Verdict == Undecided {
-			baseFail[o.Key] = true
-		}
 	}
 	dir, err := os.MkdirTemp("", "evcheck-control-")
 	if err != nil {
